@@ -18,17 +18,17 @@ Open Scope N_scope.
 
 (* every captured property is justified: its name is the rest of some entry's key whose front part
    matches the module path segment by segment ('<any>' = exactly one segment), its value that entry's *)
-Theorem C17_capture_sound : forall cfg p name val,
+Theorem C17_capture_sound : forall cfg p name e,
   wf_cfgb cfg = true -> known_classb cfg = false -> wf_pathb p = true ->
-  In (name, val) (capture_for_into (cfg_new cfg) p) -> exists v, val = Scalar v /\ receives cfg p name v.
-Proof. intros cfg p name val W K P. exact (capture_sound cfg p W K P name val). Qed.
+  In (name, e) (capture_for_into (cfg_new cfg) p) -> exists v, e = EYaml (Scalar v) /\ receives cfg p name v.
+Proof. intros cfg p name e W K P. exact (capture_sound cfg p W K P name e). Qed.
 Print Assumptions C17_capture_sound.
 
 (* every entry addressing the module yields a property of that name, holding the value of a matching entry *)
 Theorem C17_capture_complete : forall cfg p name v,
   wf_cfgb cfg = true -> known_classb cfg = false -> wf_pathb p = true ->
   receives cfg p name v ->
-  exists v', In (name, Scalar v') (capture_for_into (cfg_new cfg) p) /\ receives cfg p name v'.
+  exists v', In (name, EYaml (Scalar v')) (capture_for_into (cfg_new cfg) p) /\ receives cfg p name v'.
 Proof. intros cfg p name v W K P. exact (capture_complete cfg p W K P name v). Qed.
 Print Assumptions C17_capture_complete.
 
@@ -38,7 +38,7 @@ Theorem C17_no_foreign_entries : forall cfg1 cfg2 p,
   wf_cfgb cfg1 = true -> known_classb cfg1 = false -> wf_cfgb cfg2 = true -> known_classb cfg2 = false ->
   wf_pathb p = true ->
   (forall name v, receives cfg1 p name v <-> receives cfg2 p name v) ->
-  forall name, hasP name (capture_for_into (cfg_new cfg1) p) <-> hasP name (capture_for_into (cfg_new cfg2) p).
+  forall name, hasS name (capture_for_into (cfg_new cfg1) p) <-> hasS name (capture_for_into (cfg_new cfg2) p).
 Proof. exact no_foreign_entries. Qed.
 Print Assumptions C17_no_foreign_entries.
 
@@ -71,6 +71,29 @@ Theorem C17_typed_stable : forall ops st name t n, get_raw name st = ESome t n -
 Proof. exact typed_stable. Qed.
 Print Assumptions C17_typed_stable.
 
+(* a configuration included while the node exists never touches a property that already has a slot,
+   whatever the slot's state: a configured value, a typed value, or the empty slot a lookup left behind
+   (Props::set is entry().or_insert()) - for every configuration value, path and store *)
+Theorem C17_include_keeps_slot : forall (c : cfg) (path : list str) (st : store) name e,
+  s_get name st = Some e -> s_get name (capture_for c path st) = Some e.
+Proof. exact include_keeps_slot. Qed.
+Print Assumptions C17_include_keeps_slot.
+
+(* hence the cell law holds across late includes: typed accesses to a property of type t interleaved with
+   arbitrary further configurations answer like a cell of type t ... *)
+Theorem C17_typed_stable_across_includes : forall ops path st name t n, get_raw name st = ESome t n ->
+  snd (run_entry_l path st name ops) = cell_run t n (typed_of ops) /\
+  exists n', get_raw name (fst (run_entry_l path st name ops)) = ESome t n'.
+Proof. exact typed_stable_across_includes. Qed.
+Print Assumptions C17_typed_stable_across_includes.
+
+(* ... and whatever late operations (accesses to any properties, includes) run on a module, a property
+   that has a type keeps it *)
+Theorem C17_late_keeps_type : forall ops path st name t n, get_raw name st = ESome t n ->
+  exists n', get_raw name (run_module_l path st ops) = ESome t n'.
+Proof. exact late_keeps_type. Qed.
+Print Assumptions C17_late_keeps_type.
+
 (* the first typed access converts the configuration value once, to that very number, or fails
    leaving it untouched; an absent property has no type yet *)
 Theorem C17_typed_first : forall ty v,
@@ -102,19 +125,26 @@ Definition alicent : str := [97;108;105;99;101;110;116].
 
 Example C17_nonvacuous :
   wf_cfgb demo = true /\ known_classb demo = false /\
-  sort_props (capture_for_into (cfg_new demo) [alice]) = [([97;100;100;114], Scalar 1); ([108;111;103], Scalar 4)] /\
-  sort_props (capture_for_into (cfg_new demo) [alicent]) = [([97;100;100;114], Scalar 2); ([108;111;103], Scalar 4)] /\
-  sort_props (capture_for_into (cfg_new demo) [alice; [116;99;112]]) = [([116;99;112;46;109;115;115], Scalar 5); ([120], Scalar 3)] /\
-  sort_props (capture_for_into (cfg_new demo) [[97]]) = [([108;111;103], Scalar 4); ([121], Scalar 7)] /\
-  sort_props (capture_for_into (cfg_new demo) [[97;195;169]]) = [([108;111;103], Scalar 4); ([120], Scalar 6)] /\
+  sort_props (capture_for_into (cfg_new demo) [alice]) = [([97;100;100;114], EYaml (Scalar 1)); ([108;111;103], EYaml (Scalar 4))] /\
+  sort_props (capture_for_into (cfg_new demo) [alicent]) = [([97;100;100;114], EYaml (Scalar 2)); ([108;111;103], EYaml (Scalar 4))] /\
+  sort_props (capture_for_into (cfg_new demo) [alice; [116;99;112]]) = [([116;99;112;46;109;115;115], EYaml (Scalar 5)); ([120], EYaml (Scalar 3))] /\
+  sort_props (capture_for_into (cfg_new demo) [[97]]) = [([108;111;103], EYaml (Scalar 4)); ([121], EYaml (Scalar 7))] /\
+  sort_props (capture_for_into (cfg_new demo) [[97;195;169]]) = [([108;111;103], EYaml (Scalar 4)); ([120], EYaml (Scalar 6))] /\
   spec_capture demo [alice] = [([97;100;100;114], 1); ([108;111;103], 4)] /\
   spec_capture demo [alice; [116;99;112]] = [([120], 3); ([116;99;112;46;109;115;115], 5)].
 Proof. vm_compute. repeat split; reflexivity. Qed.
 
-(* a typed run: the configured number is read as u64, then as String (error), written as u64, read back *)
-Example C17_nonvacuous_typed :
-  run_tops [store_of (capture_for_into (cfg_new demo) [alice])]
-           [TRead 0 [97;100;100;114] 0; TRead 0 [97;100;100;114] 2; TWrite 0 [97;100;100;114] 0 9;
-            TRead 0 [97;100;100;114] 0; TRead 0 [108;111;103] 2; TRead 0 [108;111;103] 1]
-  = [3;1;1] ++ [3;2] ++ [4;0] ++ [3;1;9] ++ [3;3] ++ [3;1;4].
+(* a late run on module alice: addr is read as u64, a configuration `alice.addr: 300` arrives, addr is re-read
+   as String (type mismatch) and as u64 (still 1); `level` is written as i64 3 before `<any>.level: 300`
+   arrives and stays an i64 3; `mtu` is merely looked up before `alice.mtu: 9` arrives and stays empty *)
+Definition addr : str := [97;100;100;114].
+Definition level : str := [108;101;118;101;108].
+Definition mtu : str := [109;116;117].
+Example C17_nonvacuous_late :
+  snd (run_late [([alice], capture_for_into (cfg_new demo) [alice])]
+        [LTyped (TRead 0 addr 0); LInclude (alice ++ [46] ++ addr) 300; LTyped (TRead 0 addr 2); LTyped (TRead 0 addr 0);
+         LTyped (TWrite 0 level 1 3); LInclude (ANY ++ [46] ++ level) 300; LTyped (TRead 0 level 0); LTyped (TRead 0 level 1);
+         LTyped (TRaw 0 mtu); LInclude (alice ++ [46] ++ mtu) 9; LTyped (TRead 0 mtu 0);
+         LInclude (alice ++ [46; 120]) 5; LTyped (TRead 0 [120] 0)])
+  = [3;1;1] ++ [3;2] ++ [3;1;1] ++ [4;0] ++ [3;2] ++ [3;1;3] ++ [5;6] ++ [3;0] ++ [3;1;5].
 Proof. vm_compute. reflexivity. Qed.
